@@ -75,7 +75,24 @@ func main() {
 					continue
 				}
 				// ---- encode: Go number -> CQL ----
+				srcs := []reflect.Value{}
 				if src, ok := r.Make(a); ok {
+					srcs = append(srcs, src)
+					if r.Name == "string(base10)" {
+						// other base-10 spellings of the same number ("formatted and parsed as base 10 number"):
+						// zero-padded to a fixed width (fmt %05d style) and with an explicit plus sign
+						abs := new(big.Int).Abs(a.I).String()
+						sign := ""
+						if a.I.Sign() < 0 {
+							sign = "-"
+						}
+						srcs = append(srcs, reflect.ValueOf(sign+"0"+abs), reflect.ValueOf(sign+"000"+abs))
+						if a.I.Sign() >= 0 {
+							srcs = append(srcs, reflect.ValueOf("+"+abs))
+						}
+					}
+				}
+				for _, src := range srcs {
 					for _, asPtr := range []bool{false, true} {
 						in := src
 						if asPtr {
